@@ -5,19 +5,19 @@ import json, os, sys
 sys.path.insert(0, os.path.dirname(os.path.abspath(__file__)))
 import props as P
 
-HOOK_COMMITS = ["8ab567c"]
+HOOK_COMMITS = ["8ab567c", "215975f"]
 T_GRAPH = "TLA+ handle-level specification model-checked by TLC; every transition exported and replayed into the real crate (spec->impl conformance)"
-T_MM = "TLA+ micro-step specification under a view-based release/acquire/relaxed memory model, checked by TLC with protocol constants extracted from the running code"
+T_MM = "TLA+ micro-step specification under a view-based release/acquire/relaxed memory model, checked by TLC with protocol constants extracted from the running code; recorded concurrent executions and injected preemptions of the real crate validated by TLC against the trace specification"
 T_LAY = "TLA+ layout arithmetic checked by TLC over the size/alignment matrix; real allocator records compared with the table TLC evaluates"
 N_GRAPH = "TLC exhaustive within the stated bounds; canonical VIEW; harness allocator/payload instrumentation; single-threaded histories"
-N_MM = "promise-free RC11 fragment, SeqCst as AcqRel; protocol extracted through the cfg(triomphe_verif) tracer; bounds per configuration"
+N_MM = "promise-free RC11 fragment, SeqCst as AcqRel; protocol extracted through the cfg(triomphe_verif) tracer; bounds per configuration; recorded runs are samples of schedules (seeded cooperative scheduler), injected preemptions are exhaustive for one or two preemptions per call"
 N_LAY = "Layout.tla transcribes core::alloc::Layout and the repr(C) algorithm; real matrix is a sub-lattice of the TLC matrix"
 
 CLAIMS = {
- "C01": ("model_checking", "TLC checks the ownership invariants (live iff owned, destroyed once, freed once, no dangling handle, quiescent clean) on every reachable state of the handle-level specification; every transition of the state graph is replayed into the real crate with destructor / allocator / poison observation and a drain suffix.", N_GRAPH, T_GRAPH, "DESIGN.md §6 C01"),
+ "C01": ("model_checking", "TLC checks the ownership invariants (live iff owned, destroyed once, freed once, no dangling handle, quiescent clean) on every reachable state of four handle-level specifications (sized, thin, slices, uninit families); every transition of each state graph, plus random walks up to 16 slots / 40 blocks / depth 400, is replayed into the real crate (std and no_std builds) with destructor / allocator / poison / red-zone observation and a drain suffix; clone/drop schedules and injected preemptions under ArcMM.", N_GRAPH + "; " + N_MM, T_GRAPH + " + " + T_MM, "DESIGN.md §6 C01"),
  "C02": ("model_checking", "Every interleaving and every legal (possibly stale) load outcome of 2-4 threads running clone/read/drop, under the protocol (operations and orderings) extracted from the running code: one destroyer, every access happens-before destruction and deallocation.", N_MM, T_MM, "DESIGN.md §6 C02"),
  "C03": ("model_checking", "Sequential half: verdict = sole owner as an action property on every transition, replayed with every co-owner kind. Schedule half: ArcMM with a polling-and-writing thread under the extracted protocol.", N_GRAPH + "; " + N_MM, T_GRAPH + " + " + T_MM, "DESIGN.md §6 C03"),
- "C04": ("model_checking", "CountAccurate invariant and CountSteps action property on the specification; after every replayed behaviour every count accessor of every handle (also inside callbacks) is compared with the specification.", N_GRAPH, T_GRAPH, "DESIGN.md §6 C04"),
+ "C04": ("model_checking", "CountAccurate invariant and CountSteps action property on the specifications; after every replayed behaviour every count accessor of every handle (also inside callbacks) is compared with the specification; count = handles at every quiescent point of recorded and injected concurrent executions; the reduced core CountInd.tla proved inductive by Apalache.", N_GRAPH + "; " + N_MM, T_GRAPH + " + " + T_MM + " + Apalache inductive invariant", "DESIGN.md §6 C04"),
  "C05": ("model_checking", "Layout.tla invariants (alloc = release, fits, aligned, overflow refused) over the whole matrix; the allocator's (size, align) at alloc and dealloc for every constructor x release path of the real sub-lattice equals the specification's table.", N_LAY, T_LAY, "DESIGN.md §6 C05"),
  "C06": ("model_checking", "Ctor.tla models every slice constructor step by step; TLC checks that a handle is produced only with every slot written from the input in order, that honest inputs always succeed and that the source's storage is released; each terminal state (constructor x length up to 300 x capacity x hint regime) is run against the real constructor with identity-tracked elements. Sized constructors are covered by the handle-level graph.", N_GRAPH, "TLA+ constructor specification (Ctor.tla) model-checked by TLC; every case it enumerates executed on the real crate and compared", "DESIGN.md §6 C06"),
  "C07": ("fault_enumeration", "Ctor.tla with fault parameters (panic at the k-th next, misreported and changing lengths/hints, allocation failure) checked by TLC for at-most-once destruction and no exposed uninitialised slot; every enumerated fault case run on the real crate, observation must be within the specification's allowed outcome; panicking Clone / callbacks / with_arc_mut replacement in the handle-level graphs; allocation failure in child processes.", N_GRAPH, "TLA+ fault-parameterised specification checked by TLC; TLC-enumerated fault cases injected into the real crate", "DESIGN.md §6 C07"),
